@@ -164,15 +164,19 @@ structure WArgs where
   wvl : Float
   ts : Nat
 
-def Src.value (a : WArgs) (r : Row) : Src → Dflt
-  | .keep => r.dflt
-  | .constInt v => .int v
-  | .constFlt b => .flt b
-  | .dxMmToM => .flt (a.dx / 1000.0).toBits.toNat
-  | .wvlUmToM => .flt (a.wvl / 1000000.0).toBits.toNat
-  | .timestamp => .int a.ts
-  | .shape ax => .int (if ax = 0 then a.h else a.w)
-  | .nbytes => .int (a.h * a.w * 4)
+/-- bytes the writer hands to `struct.pack_into` for a field, before fitting to the field size -/
+def Src.raw (a : WArgs) (r : Row) : Src → List Nat
+  | .keep => r.rawDflt r.dflt
+  | .constInt v => r.rawDflt (.int v)
+  | .constFlt b => r.rawDflt (.flt b)
+  | .dxMmToM => packNum r.endian 4 (f32Bits (a.dx / 1000.0))
+  | .wvlUmToM => packNum r.endian 4 (f32Bits (a.wvl / 1000000.0))
+  | .timestamp => r.rawDflt (.int a.ts)
+  | .shape ax => r.rawDflt (.int (if ax = 0 then a.h else a.w))
+  | .nbytes => r.rawDflt (.int (a.h * a.w * 4))
+
+/-- exactly `calcsize(fmt)` bytes -/
+def Row.payload (r : Row) (a : WArgs) (s : Src) : List Nat := packStr r.size (s.raw a r)
 
 /-- the writer's overrides (hand model; `Generated.C14.zygoWriterSets` is proved equal) -/
 def writerSets : List (String × Src) :=
@@ -187,7 +191,7 @@ def lookupSrc (sets : List (String × Src)) (name : String) : Src :=
 
 /-- the 834 header bytes of a written file -/
 def headerBytes (table : List Row) (sets : List (String × Src)) (a : WArgs) : List Nat :=
-  let fields := (table.filter (fun r => !r.isPad)).map fun r => (r.lo, r.packDflt ((lookupSrc sets r.name).value a r))
+  let fields := (table.filter (fun r => !r.isPad)).map fun r => (r.lo, r.payload a (lookupSrc sets r.name))
   slice (writeAll (fun _ => 0) fields) 0 headerLen
 
 /-! ## orientation: flips of a row-major `h × w` array as index maps -/
